@@ -27,6 +27,7 @@ Num(n)        == [k |-> "num", n |-> n]
 Str(s)        == [k |-> "str", s |-> s]
 Ref           == [k |-> "ref"]                  \* contact.age, bound to 4
 Today         == [k |-> "today"]                \* date.today
+NumZ(n)       == [k |-> "numz", n |-> n]        \* the same number written with a leading zero (010 is ten: there is no octal)
 Paren(a)      == [k |-> "paren", a |-> a]
 Neg(a)        == [k |-> "neg", a |-> a]
 Bin(op, a, b) == [k |-> "bin", op |-> op, a |-> a, b |-> b]
@@ -45,6 +46,10 @@ PowInt(a, b) == IF b = 0 THEN 1 ELSE LET r == PowInt(a, b - 1) IN IF r = Lim + 1
 Text(x) == CASE x.t = "n" -> ToString(x.v) [] x.t = "s" -> x.v [] x.t = "b" -> (IF x.v THEN "TRUE" ELSE "FALSE")
 Abs(v) == IF v < 0 THEN -v ELSE v
 
+\* twelve words / twelve comma separated fields, for the 1-based WORD and FIELD whose index the migration decrements
+Words == <<"w1", "w2", "w3", "w4", "w5", "w6", "w7", "w8", "w9", "w10", "w11", "w12">>
+T12 == "w1 w2 w3 w4 w5 w6 w7 w8 w9 w10 w11 w12"
+F12 == "w1,w2,w3,w4,w5,w6,w7,w8,w9,w10,w11,w12"
 \* texts of the enumeration and their slices (LEFT / RIGHT / LEN are tabulated: TLC strings have no character access)
 Texts == {"ab", "cde"}
 LenOf(s)  == IF s = "ab" THEN 2 ELSE IF s = "cde" THEN 3 ELSE -1
@@ -80,6 +85,8 @@ CallVal(f, vs) ==
             [] f = "MOD"   -> IF n2 /\ vs[1].v >= 0 /\ vs[2].v > 0 THEN N(vs[1].v % vs[2].v) ELSE Bad
             [] f = "LEN"   -> IF Len(vs) = 1 /\ vs[1].t = "s" /\ LenOf(vs[1].v) > 0 THEN N(LenOf(vs[1].v)) ELSE Bad
             [] f = "CONCATENATE" -> IF Len(vs) = 2 THEN BinVal("&", vs[1], vs[2]) ELSE Bad
+            [] f = "WORD"  -> IF Len(vs) = 2 /\ vs[1] = S(T12) /\ vs[2].t = "n" /\ vs[2].v >= 1 /\ vs[2].v <= 12 THEN S(Words[vs[2].v]) ELSE Bad
+            [] f = "FIELD" -> IF Len(vs) = 3 /\ vs[1] = S(F12) /\ vs[2].t = "n" /\ vs[2].v >= 1 /\ vs[2].v <= 12 /\ vs[3] = S(",") THEN S(Words[vs[2].v]) ELSE Bad
             [] f = "LEFT"  -> IF Len(vs) = 2 /\ vs[1].t = "s" /\ vs[2].t = "n" /\ vs[2].v >= 1 /\ Left(vs[1].v, vs[2].v) # "?" THEN S(Left(vs[1].v, vs[2].v)) ELSE Bad
             [] f = "RIGHT" -> IF Len(vs) = 2 /\ vs[1].t = "s" /\ vs[2].t = "n" /\ vs[2].v >= 1 /\ Right(vs[1].v, vs[2].v) # "?" THEN S(Right(vs[1].v, vs[2].v)) ELSE Bad
             [] f = "IF"    -> IF Len(vs) = 3 /\ vs[1].t = "b" THEN (IF vs[1].v THEN vs[2] ELSE vs[3]) ELSE Bad
@@ -93,6 +100,7 @@ Den(t) ==
     [] t.k = "str"   -> S(t.s)
     [] t.k = "ref"   -> N(4)
     [] t.k = "today" -> D(0)
+    [] t.k = "numz"  -> N(t.n)
     [] t.k = "paren" -> Den(t.a)
     [] t.k = "neg"   -> LET x == Den(t.a) IN IF x.t = "n" THEN N(-x.v) ELSE Bad
     [] t.k = "bin"   -> BinVal(t.op, Den(t.a), Den(t.b))
@@ -107,6 +115,7 @@ Pr(t) ==
     [] t.k = "str"   -> <<Tok("str", t.s)>>
     [] t.k = "ref"   -> <<Tok("ref", "contact.age")>>
     [] t.k = "today" -> <<Tok("ref", "date.today")>>
+    [] t.k = "numz"  -> <<Tok("num", "0" \o ToString(t.n))>>
     [] t.k = "paren" -> <<Sy("(")>> \o Pr(t.a) \o <<Sy(")")>>
     [] t.k = "neg"   -> <<Sy("-")>> \o Pr(t.a)
     [] t.k = "bin"   -> Pr(t.a) \o <<Sy(t.op)>> \o Pr(t.b)
@@ -117,7 +126,7 @@ Pr(t) ==
 Level(t) == IF t.k = "bin" THEN Prec[t.op] ELSE 9
 RECURSIVE Normal(_)
 Normal(t) ==
-  CASE t.k \in {"num", "str", "ref", "today"} -> TRUE
+  CASE t.k \in {"num", "str", "ref", "today", "numz"} -> TRUE
     [] t.k = "paren" -> Normal(t.a)
     [] t.k = "neg"   -> Normal(t.a) /\ t.a.k # "bin"
     [] t.k = "bin"   -> Normal(t.a) /\ Normal(t.b) /\ Level(t.a) >= Prec[t.op] /\ Level(t.b) > Prec[t.op]
@@ -164,7 +173,12 @@ N4 == IF Deep THEN {Bin(op, x, y) : op \in NumOps, x \in N1, y \in N1} \cup {Cal
 D0 == {Today} \cup {Bin("+", Today, n) : n \in {Num(2), Num(17)}} \cup {Bin("-", Today, n) : n \in {Num(2), Num(30)}}
 D1 == D0 \cup {Paren(d) : d \in D0 \ {Today}}
 DB == {Bin("=", a, b) : a \in D0, b \in D0}
-All == N1 \cup N2 \cup N3 \cup N4 \cup S1 \cup S2 \cup B1 \cup B2 \cup D1 \cup DB
+\* 1-based indexes: as plain and zero-padded literals (one digit, two digits, all of them valid "octal" digits or not),
+\* as a reference and as arithmetic; alone, in a concatenation and compared
+Idx == {Num(1), Num(3), Num(10), Num(12), NumZ(7), NumZ(8), NumZ(10), NumZ(11), NumZ(12), Ref, Bin("+", Num(2), Num(3)), Bin("+", NumZ(10), Num(1))}
+W1 == {Call("WORD", <<Str(T12), i>>) : i \in Idx} \cup {Call("FIELD", <<Str(F12), i, Str(",")>>) : i \in Idx}
+W2 == {Bin("&", w, Str("ab")) : w \in W1} \cup {Bin("=", w, Str("w10")) : w \in W1} \cup {Bin("+", NumZ(10), Num(2)), Bin("*", NumZ(11), NumZ(7)), Call("SUM", <<NumZ(10), NumZ(8)>>)}
+All == N1 \cup N2 \cup N3 \cup N4 \cup S1 \cup S2 \cup B1 \cup B2 \cup D1 \cup DB \cup W1 \cup W2
 
 \* ---- string literals: doubled quotes are the only escape of the legacy grammar; a backslash is an ordinary character ----
 LitChars == {"q", "b", "c", "n"}      \* quote, backslash, some character, the letter n (so that backslash-n is in the space)
